@@ -109,7 +109,14 @@ def run(ctx) -> None:
             e_num = [exp["num1"][perm[k]] for k in range(3)]
             e_sw = [exp["sumw1"][perm[k]] for k in range(3)]
             e_rad = [exp["rad1"][perm[k]] for k in range(3)]
-            ok = check_meta(ctx, yaw, cat, e_num, e_sw, e_rad, cen.data, delta, "apply", "centres_permuted" if perm != (0, 1, 2) else "centres_in_order", detail)
+            given = cen.data.copy()
+            ok = check_meta(ctx, yaw, cat, e_num, e_sw, e_rad, given, delta, "apply", "centres_permuted" if perm != (0, 1, 2) else "centres_in_order", detail)
+            if ok:
+                # the catalog must not alias the caller's centre array
+                cen.data[:] = cen.data[::-1] + 0.3
+                if not np.array_equal(cat.get_centers().data, given):
+                    ctx.violation("C12|apply|centres_array_modified_afterwards|reported_centres_follow_the_callers_array", dict(detail))
+                cen = sky.centre_coords(sc, emb, perm=perm)
             if ok and n % 3 == 0:
                 # reload with several workers and scrambled completion orders (metadata recomputed)
                 data.copy_cache(root / "a", root / "b")
@@ -154,6 +161,10 @@ def refusal(ctx, yaw, root, sc, rng, Err):
     cases.append(("centre_farther_than_radius", (base, [0, 0, 1, 1]), ([(25.0, 0.0), (25.5, 0.2), (40.0, 0.0), (41.0, 0.5)], [0, 0, 1, 1]), "must_refuse"))
     cases.append(("single_object_patch_elsewhere", ([(90.0, 0.0), (40.0, 0.0), (41.0, 0.5), (42.0, 0.1)], [0, 1, 1, 1]),
                   ([(55.0, 5.0), (40.2, 0.0), (41.0, 0.4)], [0, 1, 1]), "must_refuse"))
+    big = [(40.0 + 0.1 * k, 0.05 * (k % 7)) for k in range(9)] + [(20.0 + 0.1 * k, 0.05 * (k % 5)) for k in range(9)]
+    # the FIRST catalog is the smaller one and is misaligned with the (larger) later catalog
+    cases.append(("first_catalog_smaller_but_aligned", (base, [1, 1, 0, 0]), (big, [0] * 9 + [1] * 9), "must_accept"))
+    cases.append(("first_catalog_smaller_and_misaligned", (base, [0, 0, 1, 1]), (big, [0] * 9 + [1] * 9), "must_refuse"))
     cases.append(("aligned", (base, [0, 0, 1, 1]), ([(20.2, 0.1), (20.9, 0.4), (40.1, 0.1), (40.9, 0.4)], [0, 0, 1, 1]), "must_accept"))
     cases.append(("aligned_shifted_a_little", (base, [0, 0, 1, 1]), ([(20.1, 0.0), (21.1, 0.5), (40.1, 0.0), (41.1, 0.5)], [0, 0, 1, 1]), "must_accept"))
     for name, (rp, rid), (up, uid), want in cases:
